@@ -162,7 +162,10 @@ Definition crow := (cf_row * Q)%type.            (* a row of a file; q-value col
 Definition ccontent := list crow.
 
 Record fs_coll := { fc_pfx : Z;                  (* 0: no prefix *)
-                    fc_rows : list cf_row }.     (* the PSM table with the scores to rank by *)
+                    fc_rows : list cf_row;       (* the PSM table with the scores to rank by *)
+                    fc_prot : option (list Z * list cf_row) }.
+                    (* protein level (an oracle, see C15): the PSM ids of the peptide-level file the picked-protein step is
+                       expected to read, and the rows it then writes to the protein-level file *)
 
 Record fs_cfg := { fg_ext : bool;                (* input (hence chunk / level file) format: true = Parquet *)
                    fg_c : nat;                   (* CONFIDENCE_CHUNK_SIZE *)
@@ -171,6 +174,7 @@ Record fs_cfg := { fg_ext : bool;                (* input (hence chunk / level f
                    fg_decoys : bool;
                    fg_append : bool;             (* append_to_output_file *)
                    fg_glob : bool;               (* chunk files found by glob (the code before the repair) *)
+                   fg_proteins : bool;           (* a protein level follows the rollup levels *)
                    fg_colls : list fs_coll }.
 
 Inductive cfn : Type :=
@@ -178,9 +182,17 @@ Inductive cfn : Type :=
 | KConst (rows : list cf_row)                    (* data that comes from the run's input *)
 | KLevelBatch (c : nat) (dedup : bool) (nl lv b : nat)   (* deps = chunk files: b-th batch of level lv *)
 | KLevelAll (dedup : bool) (nl lv : nat)         (* deps = chunk files: all rows of level lv *)
-| KResultBatch (c : nat) (lv : nat) (decoy : bool) (b : nat).   (* deps = [level file] *)
+| KResultBatch (c : nat) (lv : nat) (decoy : bool) (b : nat)    (* deps = [level file] *)
+| KProteins (ids : list Z) (rows : list cf_row).                (* deps = [peptide-level file]: picked proteins (oracle) *)
 
 Definition fs_plain (rows : list cf_row) : ccontent := map (fun r => (r, 0%Q)) rows.
+
+Fixpoint fs_zlist_eqb (a b : list Z) : bool :=
+  match a, b with
+  | [], [] => true
+  | x :: r, y :: t => (x =? y) && fs_zlist_eqb r t
+  | _, _ => false
+  end.
 
 Definition fs_level_rows (dedup : bool) (nl lv : nat) (inputs : list ccontent) : list cf_row :=
   nth lv (cf_levels_run cf_row cf_lkey dedup nl (mg_merge_all cf_score (map (map fst) inputs))) [].
@@ -198,6 +210,11 @@ Definition capply (f : cfn) (inputs : list ccontent) : option ccontent :=
           let rows := map fst lvl in
           let rq := combine rows (cf_qvalues rows) in
           Some (filter (fun p => Bool.eqb (cf_target (fst p)) (negb decoy)) (nth b (pc_chunks c rq) []))
+      | _ => None
+      end
+  | KProteins ids rows =>
+      match inputs with
+      | [peps] => if fs_zlist_eqb (map (fun p => cf_id (fst p)) peps) ids then Some (fs_plain rows) else None
       | _ => None
       end
   end.
@@ -219,12 +236,16 @@ Definition fs_chunk_ops (g : fs_cfg) (pfx : Z) (rows : list cf_row) : list cop :
                       else [OWrite n [] KEmpty; OAppend n [] (KConst ch)])
            (combine (seq 0 (length (fs_chunk_rows g rows))) (fs_chunk_rows g rows)).
 
+(* the levels that have result files: psms, the rollup levels and, when proteins are given, the protein level *)
+Definition fs_res_levels (g : fs_cfg) : list nat :=
+  if fg_proteins g then seq 0 (S (fg_nlevels g)) else seq 0 (fg_nlevels g).
+
 (* result files are created (header only) unless results are appended to existing files *)
 Definition fs_result_inits (g : fs_cfg) (pfx : Z) (append : bool) : list cop :=
   if append then [] else
   flat_map (fun lv => OWrite (NResult pfx false lv) [] KEmpty ::
                       (if fg_decoys g then [OWrite (NResult pfx true lv) [] KEmpty] else []))
-           (seq 0 (fg_nlevels g)).
+           (fs_res_levels g).
 
 (* the level loop, transcribed with its flushes: rows are added to the batch of a level; a batch
    that reaches CONFIDENCE_CHUNK_SIZE rows is appended to the level file at once *)
@@ -280,7 +301,19 @@ Definition fs_result_ops (g : fs_cfg) (pfx : Z) (levels : list (list cf_row)) : 
                           else []))
                (seq 0 (length (pc_chunks (fg_c g) rows)))
       ++ [OUnlink (NLevel lv (fg_ext g))])
-    (combine (seq 0 (fg_nlevels g)) levels).
+    (combine (fs_res_levels g) levels).
+
+(* LinearConfidence with proteins: the peptide-level file (level 1) is read, the picked proteins are written to the
+   protein-level file; that file is then treated like every other level file *)
+Definition fs_prot_ops (g : fs_cfg) (cl : fs_coll) : list cop :=
+  if fg_proteins g then
+    match fc_prot cl with
+    | Some (ids, rows) => [OWrite (NLevel (fg_nlevels g) (fg_ext g)) [NLevel 1 (fg_ext g)] (KProteins ids rows)]
+    | None => []
+    end
+  else [].
+Definition fs_prot_levels (g : fs_cfg) (cl : fs_coll) : list (list cf_row) :=
+  if fg_proteins g then match fc_prot cl with Some (_, rows) => [rows] | None => [] end else [].
 
 Definition fs_coll_ops (g : fs_cfg) (append : bool) (cl : fs_coll) : list cop :=
   let pfx := fc_pfx cl in
@@ -291,7 +324,8 @@ Definition fs_coll_ops (g : fs_cfg) (append : bool) (cl : fs_coll) : list cop :=
   (if fg_glob g
    then fs_level_ops_glob g pfx ++ [OUnlinkGlob (PChunks pfx)]
    else fs_level_ops g pfx rows ++ map OUnlink (fs_chunk_names g pfx rows)) ++
-  fs_result_ops g pfx levels.
+  fs_prot_ops g cl ++
+  fs_result_ops g pfx (levels ++ fs_prot_levels g cl).
 
 (* collections one after the other.  Collections without prefix share their result files: once one of
    them has been written, the following ones append.  A collection with a prefix has result files of its
@@ -317,7 +351,7 @@ Definition fs_run (g : fs_cfg) (k : option nat) (s : cfs) : option cfs :=
 Definition fs_result_names (g : fs_cfg) : list fname :=
   flat_map (fun cl => flat_map (fun lv => NResult (fc_pfx cl) false lv ::
                                           (if fg_decoys g then [NResult (fc_pfx cl) true lv] else []))
-                               (seq 0 (fg_nlevels g)))
+                               (fs_res_levels g))
            (fg_colls g).
 
 (* printable trace: kind (0 write, 1 append, 2 unlink, 3 move) and file name *)
